@@ -12,7 +12,7 @@ import types
 import z3
 
 from . import core
-from .core import SymBool, SymInt, SymEnum, SymChoice, Unsupported, zbool, lift_call
+from .core import SymBool, SymInt, SymEnum, SymChoice, SymTagSet, Unsupported, zbool, lift_call
 
 STATS = {}          # path -> {"sites": n, "sha": ..}
 CALL_PROFILE = set()    # module names that get call / % lifting
@@ -210,6 +210,13 @@ def _anysym(a, kw):
 
 
 def sx_call(f, *a, **kw):
+    if a and isinstance(a[0], core.CondTag):
+        import fnmatch
+        if f in (fnmatch.fnmatchcase, fnmatch.fnmatch) and len(a) == 2 and isinstance(a[1], str):
+            return a[0].holds(f(a[0].text, a[1]))
+        raise Unsupported("CondTag passed to %r" % (f,))
+    if a and isinstance(a[0], SymTagSet) and f in (set, frozenset, list, tuple, sorted):
+        return a[0].copy()
     if not _anysym(a, kw):
         if isinstance(f, types.BuiltinMethodType) and isinstance(getattr(f, "__self__", None), SymChoice):
             return f(*a, **kw)
